@@ -36,7 +36,7 @@ FU = 'utils.func_utils'
 
 
 def run(ctx: Ctx):
-  for r in (r1, r2, r3, r4, r5, r6, r7, r8, r9, r10, r11, r12, r13):
+  for r in (r1, r2, r3, r4, r5, r6, r7, r8, r9, r10, r11, r12, r13, r14):
     ctx.guard(r)
 
 
@@ -814,6 +814,53 @@ def r13(ctx: Ctx):
   ctx.floor(rule, 4, n)
 
 
+def r14(ctx: Ctx):
+  rule = 'R-C17-14'
+  ctx.rule(rule, '"lazy expressions evaluate to what the eager expression would", nested ones included: evaluating a cached'
+           ' expression evaluates its argument expressions through the SAME cache wrapper (result_ -> _maybe_make ->'
+           ' result_). The wrapper therefore never calls the evaluation (`fn(x)`) while it holds a non-reentrant lock'
+           ' (threading.Lock): the nested cached call would wait for the lock its own caller holds — a cached call inside'
+           ' a cached call never returns. (A threading.RLock, or a lock released before the evaluation, is fine.)')
+  mi = ctx.repo.module(LF)
+  fi = mi.functions.get('_maybe_lru_cache')
+  if fi is None:
+    raise AnalysisError('_maybe_lru_cache not found')
+  # names bound to a non-reentrant lock anywhere in the decorator's scopes or at module level
+  plain = set()
+  for x in list(ast.walk(fi.node)) + list(mi.tree.body):
+    if isinstance(x, ast.Assign) and isinstance(x.value, ast.Call) and unparse(x.value.func) in ('threading.Lock', 'Lock', 'threading.Semaphore',
+                                                                                              'threading.BoundedSemaphore', 'threading.Condition'):
+      if unparse(x.value.func).endswith('Condition') and x.value.args and 'RLock' in unparse(x.value.args[0]):
+        continue
+      plain |= {unparse(t) for t in x.targets}
+  wrapped = [x for x in ast.walk(fi.node) if isinstance(x, ast.FunctionDef) and x.name != fi.node.name and any(
+      isinstance(c, ast.Call) and isinstance(c.func, ast.Name) and c.func.id == 'fn' for c in ast.walk(x))]
+  n = 0
+  for w in wrapped:
+    pm = parent_map(w)
+    for c in ast.walk(w):
+      if not (isinstance(c, ast.Call) and isinstance(c.func, ast.Name) and c.func.id == 'fn'):
+        continue
+      n += 1
+      held = None
+      q = c
+      while q in pm:
+        q = pm[q]
+        if isinstance(q, (ast.With, ast.AsyncWith)):
+          for it in q.items:
+            if unparse(it.context_expr) in plain:
+              held = it.context_expr
+      what = f'_maybe_lru_cache.{w.name}: `{unparse(c)}` runs with no non-reentrant lock held'
+      if held is not None:
+        ctx.fail(rule, fi, what,
+                 f'`{unparse(c)}` is evaluated inside `with {unparse(held)}:` and `{unparse(held)}` is a non-reentrant lock: the'
+                 ' evaluation materialises its lazy arguments through this same wrapper, which then blocks on the lock its'
+                 ' caller holds — any cached expression with a cached sub-expression hangs', node=c)
+      else:
+        ctx.ok(rule, fi, what, c)
+  ctx.floor(rule, 2, n)
+
+
 def _within(node, root):
   return any(y is node for y in ast.walk(root))
 
@@ -823,6 +870,14 @@ from mlmverif.selfcheck import B, OK  # noqa: E402
 _L = 'chainables/lazy_fns.py'
 _F = 'utils/func_utils.py'
 VARIANTS = [
+    B('cache-miss-evaluated-under-a-plain-lock', 'chainables/lazy_fns.py',
+      "    lazy_obj_cache = func_utils.LruCache(maxsize=maxsize)\n", "    lazy_obj_cache = func_utils.LruCache(maxsize=maxsize)\n    import threading\n    cache_lock = threading.Lock()\n", 'R-C17-14',
+      extra=(('chainables/lazy_fns.py', "            result = fn(x)\n            lazy_obj_cache[x] = result\n            return result",
+              "            with cache_lock:\n              result = fn(x)\n              lazy_obj_cache[x] = result\n            return result"),)),
+    OK('cache-miss-evaluated-under-a-reentrant-lock', 'chainables/lazy_fns.py',
+       "    lazy_obj_cache = func_utils.LruCache(maxsize=maxsize)\n", "    lazy_obj_cache = func_utils.LruCache(maxsize=maxsize)\n    import threading\n    cache_lock = threading.RLock()\n",
+       extra=(('chainables/lazy_fns.py', "            result = fn(x)\n            lazy_obj_cache[x] = result\n            return result",
+               "            with cache_lock:\n              result = fn(x)\n              lazy_obj_cache[x] = result\n            return result"),)),
     B('revert-args-materialised-in-generator-expression', 'chainables/lazy_fns.py',
       "      args = [_maybe_make(arg) for arg in self.args]", "      args = tuple(_maybe_make(arg) for arg in self.args)", 'R-C17-13'),
     B('kwargs-materialised-in-generator-expression', 'chainables/lazy_fns.py',
